@@ -36,7 +36,7 @@ def one(d, props, skip_tests):
     tmp = tempfile.mkdtemp(prefix="pfl-seed-")
     try:
         wt = os.path.join(tmp, "repo")
-        run(["git", "-C", REPO, "worktree", "add", "--detach", "-f", wt, "HEAD"])
+        run(["git", "-C", REPO, "worktree", "add", "--detach", "-f", wt, os.environ.get("VERIF_BASE", "HEAD")])
         env = dict(os.environ, PYTHONPATH=wt)
         rc0, out0 = run([PY, os.path.join(d, "demo.py")], cwd=wt, env=env, timeout=600)
         res["demo_pristine_ok"] = rc0 == 0
